@@ -217,6 +217,7 @@ package aggregation
 //@ ghost nm_sumsq(rare/pkg/aggregation.MatchNumerical) real
 //@ pred wf_num(s) := s.config != nil && s.samples == nm_n(s) && nm_n(s) >= 0
 //@      && real(nm_n(s)) * s.mean == nm_sum(s)
+//@      && s.variance == nm_sumsq(s) - real(nm_n(s)) * s.mean * s.mean
 //@      && (forall i in [0, nm_n(s)) :: s.min <= nm_vals(s)[i] && nm_vals(s)[i] <= s.max)
 //@      && (nm_n(s) > 0 ==> (exists i in [0, nm_n(s)) :: nm_vals(s)[i] == s.min) && (exists j in [0, nm_n(s)) :: nm_vals(s)[j] == s.max))
 //@      && (nm_n(s) == 0 ==> s.mean == 0.0)
@@ -236,12 +237,26 @@ package aggregation
 //@   ghostset nm_sumsq(s) := old(nm_sumsq(s)) + val * val
 //@   ensures wf_num(s) && s.parseErrors == old(s.parseErrors)
 
-// mean = S1/n (the second moment identity n*M2 == n*S2 - S1^2 is nonlinear real arithmetic that the
-// solvers do not discharge inside the heap context: it is checked by the bounded oracle only)
+// mean = S1/n; the running second moment is M2 = S2 - n*mean^2 (Welford's update preserves it:
+// part of wf_num, nonlinear real arithmetic), so the sample variance is (S2 - n*mean^2)/(n-1)
 //@ func (*MatchNumerical).Mean
 //@   requires wf_num(s)
 //@   pure
 //@   ensures real(nm_n(s)) * result == nm_sum(s)
+//@ func (*MatchNumerical).Variance
+//@   requires wf_num(s)
+//@   pure
+//@   ensures [sample-variance] nm_n(s) > 1 ==> result * real(nm_n(s) - 1) == nm_sumsq(s) - real(nm_n(s)) * s.mean * s.mean
+//@   ensures [too-few] nm_n(s) <= 1 ==> result == 0.0
+//@ func (*MatchNumerical).Count
+//@   pure
+//@   ensures result == s.samples
+//@ func (*MatchNumerical).Min
+//@   pure
+//@   ensures result == s.min
+//@ func (*MatchNumerical).Max
+//@   pure
+//@   ensures result == s.max
 
 // ---- SubKeyCounter ----
 // representation invariant: subKeys is strictly sorted, subKeyIdx is exactly its inverse (name ->
